@@ -1234,6 +1234,10 @@ func (g *Gen) instr(in ssa.Instruction, st *State) {
 					w.assume(fmt.Sprintf("(=> %s (= %s %s))", ok.S, val.S, x.S))
 				}
 			}
+			if _, isIface := v.AssertedType.Underlying().(*types.Interface); isIface && val.Sort == "Int" {
+				// x, ok := i.(I): a nil interface value satisfies no assertion, so when ok the result is non-nil (language semantics)
+				w.assume(fmt.Sprintf("(=> %s (not (= %s 0)))", ok.S, val.S))
+			}
 			if _, isPtr := v.AssertedType.Underlying().(*types.Pointer); isPtr {
 				// x, ok := i.(*T): when ok, x is taken to be non-nil (interface values holding a typed nil pointer are not modelled: listed)
 				w.assume(fmt.Sprintf("(=> %s (not (= %s 0)))", ok.S, val.S))
@@ -1519,7 +1523,11 @@ func (g *Gen) lookupContract(f *ssa.Function) *Contract {
 	if f.Pkg == nil {
 		return nil
 	}
-	// short form: (*T).M or F within package
+	// short form: (*T).M or F - only for functions of the package under verification (a contract `func (*Server).Serve`
+	// of this package must not be applied to net/http's method of the same relative name)
+	if g.f != nil && g.f.Pkg != nil && f.Pkg != g.f.Pkg {
+		return nil
+	}
 	short := f.RelString(f.Pkg.Pkg)
 	if c, ok := g.all[short]; ok {
 		usedContracts[c.Func] = true
@@ -1571,7 +1579,7 @@ func (g *Gen) call(c *ssa.CallCommon, res ssa.Value, st *State, pos token.Pos) {
 		name := calleeName(c)
 		ord := g.callOrdinal(c, name)
 		short := name
-		if f, ok := c.Value.(*ssa.Function); ok && f.Pkg != nil {
+		if f, ok := c.Value.(*ssa.Function); ok && f.Pkg != nil && f.Pkg == g.f.Pkg {
 			short = f.RelString(f.Pkg.Pkg)
 		}
 		keys := []string{name, fmt.Sprintf("%s#%d", name, ord)}
@@ -1632,7 +1640,7 @@ func (g *Gen) call(c *ssa.CallCommon, res ssa.Value, st *State, pos token.Pos) {
 	}
 	g.callCount[name] = g.callOrdinal(c, name)
 	short := name
-	if f, ok := c.Value.(*ssa.Function); ok && f.Pkg != nil {
+	if f, ok := c.Value.(*ssa.Function); ok && f.Pkg != nil && f.Pkg == g.f.Pkg {
 		short = f.RelString(f.Pkg.Pkg)
 	}
 	var hints []Clause
